@@ -346,3 +346,29 @@ def monitored_cm(cls, name, prop, pre=None, post=None):
     wrapper.__vf_orig__ = func
     wrapper.__name__ = name
     setattr(cls, name, classmethod(wrapper))
+
+
+# ---------------------------------------------------------------- line coverage of the library (diagnostic, VF_LINECOV=1)
+_COV_TOOL = 1
+LINES_HIT = {}
+
+
+def start_line_coverage(root):
+    """records which lines of the library under `root` are executed at least once (each line's callback disables
+    itself after the first hit, so the cost is negligible); tests are excluded"""
+    import os
+    mon = sys.monitoring
+    root = os.path.realpath(root)
+    mon.use_tool_id(_COV_TOOL, "vf-linecov")
+
+    def on_line(code, line):
+        fn = code.co_filename
+        if fn.startswith(root) and "/tests/" not in fn:
+            LINES_HIT.setdefault(fn[len(root) + 1:], set()).add(line)
+        return mon.DISABLE
+    mon.register_callback(_COV_TOOL, mon.events.LINE, on_line)
+    mon.set_events(_COV_TOOL, mon.events.LINE)
+
+
+def line_coverage():
+    return {k: sorted(v) for k, v in LINES_HIT.items()}
